@@ -1,6 +1,7 @@
 import Driver.Common
 import QlibcModel.HashTbl.Model
-open Qlibc Qlibc.HashTbl
+import QlibcModel.HashTbl.Fault
+open Qlibc Qlibc.HashTbl Qlibc.MapFault
 
 namespace Driver.HashTbl
 
@@ -8,6 +9,8 @@ structure St where
   t : Tbl
   cur : Cursor
   curValid : Bool
+  ts : Bool := false                     -- the table was created with QHASHTBL_THREADSAFE
+  armed : Option (Nat × Bool) := none    -- `fault k` / `faultfrom k`: applies to the next library call
 
 def hash32 (s : String) : Option UInt32 :=
   match Hex.decode s with
@@ -19,69 +22,94 @@ def hex8 (h : UInt32) : String :=
 
 def showEntry (e : Entry) : String := s!"{hx e.name}({hex8 e.hash})={hx e.data}"
 
-def dump (t : Tbl) : String :=
+def dump (ts : Bool) (t : Tbl) : String :=
   let rec go (sl : List (List Entry)) (i : Nat) (acc : String) : String :=
     match sl with
     | [] => acc
     | [] :: rest => go rest (i + 1) acc
     | c :: rest => go rest (i + 1) (acc ++ s!" {i}:[" ++ ",".intercalate (c.map showEntry) ++ "]")
-  s!" | {t.range} {t.num}" ++ go t.slots 0 ""
+  s!" | {t.range} {t.num} live={live ts t}" ++ go t.slots 0 ""
 
 def showCur (c : Cursor) : String := s!"true {hx c.name}({hex8 c.hash})={hx c.data}"
 
 def parseInt (s : String) : Option Int := s.toInt?
 
-def step (st : St) (ws : List String) : St × String :=
+def planOf (a : Option (Nat × Bool)) : Plan :=
+  match a with
+  | none => noFail
+  | some (k, false) => single k
+  | some (k, true) => fromOn k
+
+def step (st0 : St) (ws : List String) : St × String :=
+  let plan := planOf st0.armed
+  let st := { st0 with armed := none }        -- an armed failure lasts for one operation
   let t := st.t
-  let fin (st' : St) (out : String) : St × String := (st', out ++ dump st'.t)
+  let fin (st' : St) (out : String) : St × String := (st', out ++ dump st'.ts st'.t)
+  let putRes (r : Tbl × Bool × Nat) : St × String :=
+    fin { st with t := r.1 } (s!"allocs={r.2.2} " ++ if r.2.1 then "true" else "false ENOMEM")
   match ws with
-  | ["new", r] => match r.toNat? with
-    | some n => fin { t := init n, cur := Cursor.zero, curValid := true } "ok"
+  | ["fault", k] => fin { st0 with armed := some (k.toNat!, false) } "ok"
+  | ["faultfrom", k] => fin { st0 with armed := some (k.toNat!, true) } "ok"
+  | "new" :: r :: opt => match r.toNat? with
+    | some n =>
+      let ts := opt == ["1"]
+      match initF plan n ts with
+      | (some t', a, _) => fin { t := t', cur := Cursor.zero, curValid := true, ts := ts } s!"allocs={a} ok"
+      | (none, a, l) => fin { t := init n, cur := Cursor.zero, curValid := true, ts := false } s!"allocs={a} null ENOMEM ctorlive={l}"
     | none => fin st "bad-op"
   | ["put", k, h, d] => match arg k, hash32 h, arg d with
-    | .ok k, some h, .ok d => fin { st with t := put t k h d } "true"
+    | .ok k, some h, .ok d => putRes (putF plan t k h d)
     | _, _, _ => fin st "bad-op"
   | ["putstr", k, h, d] => match arg k, hash32 h, arg d with
-    | .ok k, some h, .ok d => fin { st with t := putstr t k h d } "true"
+    | .ok k, some h, .ok d => putRes (putstrF plan t k h d)
+    | _, _, _ => fin st "bad-op"
+  | ["putstrf", k, h, d] => match arg k, hash32 h, arg d with
+    | .ok k, some h, .ok d => putRes (putstrfF plan t k h d)
     | _, _, _ => fin st "bad-op"
   | ["putint", k, h, n] => match arg k, hash32 h, parseInt n with
-    | .ok k, some h, some n => fin { st with t := putint t k h n } "true"
+    | .ok k, some h, some n => putRes (putintF plan t k h n)
     | _, _, _ => fin st "bad-op"
-  | ["get", k, h, _] => match arg k, hash32 h with
-    | .ok k, some h => match get t k h with
-      | some d => fin st s!"data {hx d} {d.length}"
-      | none => fin st "null ENOENT"
+  | ["get", k, h, nm] => match arg k, hash32 h with
+    | .ok k, some h => match getF plan t k h (nm == "1") with
+      | (.data d, a) => fin st s!"allocs={a} data {hx d} {d.length}"
+      | (.enoent, a) => fin st s!"allocs={a} null ENOENT"
+      | (.enomem, a) => fin st s!"allocs={a} null ENOMEM"
     | _, _ => fin st "bad-op"
   | ["getstr", k, h] => match arg k, hash32 h with
     | .ok k, some h => match get t k h with
-      | some d => if d.contains 0 then fin st s!"str {hx (d.takeWhile (· != 0))}" else fin st "nonul"
-      | none => fin st "null ENOENT"
+      | some d =>
+        if d.contains 0 then
+          match getF plan t k h true with
+          | (.data d, a) => fin st s!"allocs={a} str {hx (d.takeWhile (· != 0))}"
+          | (.enoent, a) => fin st s!"allocs={a} null ENOENT"
+          | (.enomem, a) => fin st s!"allocs={a} null ENOMEM"
+        else fin st "nonul"
+      | none => fin st "allocs=0 null ENOENT"
     | _, _ => fin st "bad-op"
   | ["getint", k, h] => match arg k, hash32 h with
     | .ok k, some h =>
+      let go : St × String := match getintF plan t k h with
+        | (.ok (some n), a) => fin st s!"allocs={a} int {n}"
+        | (.ok none, a) => fin st s!"allocs={a} int 0 ENOMEM"
+        | (.error f, _) => fin st (faultStr f)
       match get t k h with
-      | some d => if d.contains 0 then
-          match getint t k h with
-          | .ok n => fin st s!"int {n}"
-          | .error f => fin st (faultStr f)
-        else fin st "nonul"
-      | none => match getint t k h with
-          | .ok n => fin st s!"int {n}"
-          | .error f => fin st (faultStr f)
+      | some d => if d.contains 0 then go else fin st "nonul"
+      | none => go
     | _, _ => fin st "bad-op"
   | ["rm", k, h] => match arg k, hash32 h with
     | .ok k, some h =>
       let (f, t') := remove t k h
-      fin { st with t := t', curValid := false } (if f then "true" else "false ENOENT")
+      fin { st with t := t', curValid := false } (if f then "allocs=0 true" else "allocs=0 false ENOENT")
     | _, _ => fin st "bad-op"
   | ["size"] => fin st s!"size {size t}"
   | ["clear"] => fin { st with t := clear t, curValid := false } "ok"
   | ["reset"] => fin { st with cur := Cursor.zero, curValid := true } "ok"
-  | ["next", _] =>
+  | ["next", nm] =>
     if !st.curValid then fin st "skip" else
-    match getnext t st.cur with
-    | .ok (some c) => fin { st with cur := c } (showCur c)
-    | .ok none => fin st "false ENOENT"
+    match getnextF plan t st.cur (nm == "1") with
+    | .ok (.item c, a) => fin { st with cur := c } (s!"allocs={a} " ++ showCur c)
+    | .ok (.done, a) => fin st s!"allocs={a} false ENOENT"
+    | .ok (.enomem, a) => fin st s!"allocs={a} false ENOMEM"
     | .error f => fin st (faultStr f)
   | ["walk", _] =>
     match walk t with
@@ -90,9 +118,10 @@ def step (st : St) (ws : List String) : St × String :=
       fin { st with cur := last, curValid := true }
         ("walk" ++ String.join (cs.map fun c => " " ++ showCur c) ++ " false ENOENT")
     | .error f => fin st (faultStr f)
+  | ["end"] => fin { t := init 0, cur := Cursor.zero, curValid := true, ts := false } "end live=0 bad=0"
   | _ => fin st "bad-op"
 
 def run : IO Unit :=
-  Driver.lineLoop { t := init 0, cur := Cursor.zero, curValid := true } step
+  Driver.lineLoop ({ t := init 0, cur := Cursor.zero, curValid := true } : St) step
 
 end Driver.HashTbl
